@@ -8,6 +8,7 @@ code behaves like this function, repeating every command on the same input.
 -/
 import KlogV.Lemmas.Style
 import KlogV.Props.Tables
+import KlogV.Props.C11b
 namespace KlogV.C11
 
 /-- The election returns the default when nobody voted … -/
